@@ -134,11 +134,15 @@ def h_arrays2d(join):
 # ---------------------------------------------------------------- multi-column frames: common column set
 from .c08 import frame, frame_cells, COLSETS
 
-def h_frames_sync(na, nb, ia, ib, join, columns, method = None):
+def h_frames_sync(na, nb, ia, ib, join, columns, method = None, nested = False):
     def h(c):
         Pm = P(); base = c.day('base')
         A, oa, ca = frame(c, 'A', na, base, COLSETS[ia]); B, ob, cb = frame(c, 'B', nb, base, COLSETS[ib])
-        r = Pm.df_sync([A, 'text', B], join = join, columns = columns, method = method)
+        if nested:
+            r = Pm.df_sync([A, 'text', dict(inner = [B])], join = join, columns = columns, method = method)
+            c.check('structure', isinstance(r, list) and len(r) == 3 and r[1] == 'text' and isinstance(r[2], dict) and list(r[2].keys()) == ['inner'] and isinstance(r[2]['inner'], list) and len(r[2]['inner']) == 1)
+            r = [r[0], r[1], r[2]['inner'][0]]
+        else: r = Pm.df_sync([A, 'text', B], join = join, columns = columns, method = method)
         c.check('structure', isinstance(r, list) and len(r) == 3 and r[1] == 'text')
         sa, sb = list(COLSETS[ia]), list(COLSETS[ib])
         wantcols = sorted(set(sa) & set(sb)) if columns == 'ij' else sorted(set(sa) | set(sb)) if columns == 'oj' else sa if columns == 'lj' else sb
@@ -151,6 +155,11 @@ def h_frames_sync(na, nb, ia, ib, join, columns, method = None):
                 for g, o in zip(got[col], offs):
                     v = (asof(o_, cols_[col], o, method) if method else lookup(o_, cols_[col], o)) if col in cols_ else None
                     if method is None or col not in cols_: c.check('cell-intact-or-nan', feq(g[1], float('nan') if v is None else v))
+                    else:
+                        # with a fill method a frame is filled row by row (rows that are NaN in every column do not count as observations), so only the clause
+                        # that does not depend on that reading is asserted: a cell the frame has at this very timestamp keeps its value
+                        own = lookup(o_, cols_[col], o)
+                        if own is not None and not V.is_nan(own): c.check('a-cell-present-at-a-surviving-timestamp-keeps-its-value-under-a-fill-method', feq(g[1], own))
     return h
 
 def gate_frames_sync(stride = 1):
@@ -218,6 +227,15 @@ def obligations(tier):
     for na, nb in [(0, 0), (0, 1), (1, 0)]:
         for method in (None, 'ffill'):
             obs.append(Ob('frames.empty.%dx%d.%s' % (na, nb, method), h_frames_sync(na, nb, 1, 2, 'oj', 'oj', method), setup = S, budget_s = 300, desc = 'df_sync of frames without rows keeps the common column set (method %s)' % method))
+    for method in ('ffill', 'bfill'):
+        for join in (('oj',) if q else ('oj', 'ij', 'lj')):
+            for na, nb in ([(2, 1)] if q else [(2, 1), (2, 2)]):
+                obs.append(Ob('frames.filled.%s.%s.%dx%d' % (method, join, na, nb), h_frames_sync(na, nb, 1, 2, join, 'oj', method), setup = S, budget_s = 300 if q else 1500,
+                              desc = 'df_sync of two-column frames (cells may be NaN) with fill method %s, join %s: a cell present at a surviving timestamp keeps its value' % (method, join)))
+    for columns in ('ij', 'oj'):
+        for ia, ib in [(1, 2), (3, 0)]:
+            obs.append(Ob('frames.nested.%s-cols.%s.%s' % (columns, ''.join(COLSETS[ia]), ''.join(COLSETS[ib])), h_frames_sync(1, 1, ia, ib, 'oj', columns, None, True), setup = S, budget_s = 300,
+                          desc = 'df_sync of a frame and a frame nested in a dict of lists: both go onto the common column set (policy %s)' % columns))
     for method in (None, 'ffill', 'bfill'):
         for n, m in ([(1, 2), (2, 2)] if q else [(1, 2), (2, 2), (3, 2), (2, 3)]):
             obs.append(Ob('reindex.explicit.%s.%dx%d' % (method, n, m), h_reindex_explicit(n, m, method), setup = S, budget_s = 300, desc = 'df_reindex onto an explicitly supplied index, method %s' % method))
